@@ -817,7 +817,9 @@ func runC13(c *Ctx) {
 	always = append(always, "#", "", "##", "#/", "a#", "?", "?version=2", "//Example.com", "//example.com?version=%41", "//h.example:80", "FILE://Host",
 		"x:", "urn:example:schemas:pet", "mailto:a@b", "?#", "?#/definitions/a",
 		// blanks, tabs-as-text and non-ASCII blanks that URL printing leaves alone in a query or an opaque part
-		"?rev=3 ", "pets.json?tag=a b ", " ", "urn:example:pet ", "urn:example: pet", "?q=\u00a0", "pets.json?x=\u00a0y\u00a0")
+		"?rev=3 ", "pets.json?tag=a b ", " ", "urn:example:pet ", "urn:example: pet", "?q=\u00a0", "pets.json?x=\u00a0y\u00a0",
+		// paths made of dot segments only
+		".", "./", "..", "sub/..", "./#/definitions/pet", "sub/../#/definitions/pet", "./.#/x", "a/./..")
 	// the grammar of the text-level printing model (Codec/Url.lean): lower-case scheme and host, no port, no query;
 	// blanks, non-ASCII, characters that must be escaped, well- and ill-formed escapes in path and fragment
 	for _, pre := range []string{"", "http://h.example", "file://", "https://a-b.example"} {
@@ -873,6 +875,38 @@ func runC13(c *Ctx) {
 		c.Hit("gob-batch")
 	}
 	c13HeldRefs(c, picked)
+	// every way of making a reference from a text gives the same value: NewRef, MustCreateRef and the builders that
+	// go through it (RefSchema, RefProperty, ParamRef, ResponseRef), and decoding {"$ref": text}
+	for _, s := range picked {
+		r, err := spec.NewRef(s)
+		if err != nil {
+			continue
+		}
+		want := fmt.Sprint(r.String(), refFlags(r), r.IsRoot(), r.IsCanonical())
+		jwant, _ := json.Marshal(r)
+		var made []spec.Ref
+		var how []string
+		if pan := safely(func() {
+			made = append(made, spec.MustCreateRef(s), spec.RefSchema(s).Ref, spec.RefProperty(s).Ref, spec.ParamRef(s).Ref, spec.ResponseRef(s).Ref)
+		}); pan != "" {
+			c.Fail(Failure{Kind: "crash", Sig: "C13:constructor-panics", What: fmt.Sprintf("NewRef(%q) succeeds but MustCreateRef / a builder panics: %s", s, pan), Case: map[string]interface{}{"ref": s}})
+			continue
+		}
+		how = []string{"MustCreateRef", "RefSchema", "RefProperty", "ParamRef", "ResponseRef"}
+		var dec spec.Ref
+		if json.Unmarshal([]byte(`{"$ref":`+quoteJSON(s)+`}`), &dec) == nil {
+			made, how = append(made, dec), append(how, "decoding {\"$ref\": text}")
+		}
+		c.Hit("constructors-agree")
+		for i, m := range made {
+			got := fmt.Sprint(m.String(), refFlags(m), m.IsRoot(), m.IsCanonical())
+			jgot, _ := json.Marshal(m)
+			if got != want || string(jgot) != string(jwant) {
+				c.Fail(Failure{Kind: "oracle", Sig: "C13:constructors-disagree", What: fmt.Sprintf("the reference made from %q by %s is (%s, JSON %s); NewRef gives (%s, JSON %s)", s, how[i], got, jgot, want, jwant), Case: map[string]interface{}{"ref": s, "constructor": how[i]}})
+				break
+			}
+		}
+	}
 	for _, s := range picked {
 		r, err := spec.NewRef(s)
 		if err != nil {
